@@ -61,13 +61,13 @@ class ParseTree:
         end = []
         for i, son in enumerate(self.sons[::-1]):
             start = [x.value for x in self.sons[:-1 - i]]
-            derivation = []
             derivations = son.get_rightmost_derivation()
+            last_derivation = derivations[-1]
             if i != 0 and derivations and derivations[0]:
                 del derivations[0]
             for derivation in derivations:
                 res.append(start + derivation + end)
-            end = derivation + end
+            end = last_derivation + end
         return res
 
     def to_networkx(self):
